@@ -1792,6 +1792,17 @@ def host_rules(ctx, prefix):
             if to.get("k") == "path" and len(to["segs"]) == 1:
                 ins = [l_["init"] for l_ in sir.walk(curly.body, into_closures=True) if l_.get("k") == "local" and l_["pat"].get("name") == to["segs"][0] and l_.get("init") is not None]
                 if not ins:
+                    # read earlier in the same attempt (one token is read per attempt, and reading writes nothing): the closure that
+                    # contains the arm declares it and nothing assigns it afterwards
+                    pm_f = sir.parent_map(d.fn.body)
+                    cl_ = curly.node
+                    while id(cl_) in pm_f and cl_.get("k") != "closure":
+                        cl_ = pm_f[id(cl_)]
+                    if cl_.get("k") == "closure":
+                        ins = [l_["init"] for l_ in sir.walk(cl_["body"], into_closures=False) if l_.get("k") == "local" and l_["pat"].get("name") == to["segs"][0] and l_.get("init") is not None]
+                        if any(x.get("k") == "assign" and sir.expr_str(x["l"]) == to["segs"][0] for x in sir.walk(d.fn.body, into_closures=True)):
+                            ins = []
+                if not ins:
                     bad.append("the end of the captured range, `%s`, was taken before the block token was reached" % to["segs"][0])
                     continue
                 to = ins[-1]
@@ -1940,7 +1951,7 @@ def source_token_rules(ctx, prefix):
             wf_ = sir.write_fmt_call(x)
             if wf_:
                 outs_.append("".join(p_[1] if p_[0] == "lit" else "{%s}" % sir.expr_str(sir.strip_ref(p_[1])) for p_ in wf_[1]).replace(" ", ""))
-            elif x.get("k") == "mcall" and x["m"] in ("write_all", "write") and x["args"]:
+            elif x.get("k") == "mcall" and x["m"] in ("write_all", "write", "write_str", "push_str") and x["args"]:
                 outs_.append("{%s}" % sir.expr_str(sir.strip_ref(x["args"][0])).replace(" ", "").replace(".as_bytes()", ""))
         if outs_ != ["{self.s}"]:
             wr_bad.append("%s writes %s" % (g.name, outs_))
